@@ -37,6 +37,11 @@ def gen_case(rng, tier):
         defs.append(gen.gen_seq_def(rng))
     scn = {'files': [{'name': 'f0.log', 'content': content.hex()}], 'defs': defs,
            'regs': [[i, 0] for i in range(len(defs))], 'constraints': [cons], 'global': 0}
+    if rng.random() < 0.3:
+        # the same constraint object applied again after the path was rewritten
+        c2, _ = K.gen_log(rng, rng.choice([1, 3, 8, 20]), kind, ordered=True,
+                          undated=0.2, longs=0.2)
+        scn['_second'] = c2.hex()
     return scn
 
 
@@ -50,9 +55,14 @@ def eval_cases(rng, count, extra):
         content = S.file_bytes(scn['files'][0])
         cons = scn['constraints'][scn['global']]
         unit = K.impl_apply(content, cons)
-        api = S.run_impl(scn)
-        out.append({'scn': scn, 'unit': unit, 'api': api, 'consts': consts,
-                    'seek_case': K.seek_case(content, cons, [['apply']], consts)})
+        api = S.run_impl({k: v for k, v in scn.items() if not k.startswith('_')})
+        item = {'scn': scn, 'unit': unit, 'api': api, 'consts': consts,
+                'seek_case': K.seek_case(content, cons, [['apply']], consts)}
+        if scn.get('_second'):
+            c2 = bytes.fromhex(scn['_second'])
+            item['twice'] = K.impl_apply_twice(content, c2, cons)
+            item['seek_case2'] = K.seek_case(c2, cons, [['apply']], consts)
+        out.append(item)
     return out
 
 
@@ -123,6 +133,22 @@ def judge(rep, it, ex, tmo):
                      "results with the constraint differ from the plain search of the "
                      f"suffix starting at {spec_pos}", impl=a, spec=b)
             return
+    if 'twice' in it:
+        rep.count('second_application')
+        o2 = it['mobs2']['model']['outs'][0]
+        second = it['twice'][1]
+        if in_hyps(o2['hyps'], it['consts']) and second.get('pos') != o2['spec']:
+            rep.fail('failing-input', scn,
+                     f"second application of the same constraint object after the path was "
+                     f"rewritten left the file at {second.get('pos', second)}; the first "
+                     f"in-window line of the new content starts at {o2['spec']}",
+                     impl=it['twice'], spec=o2['spec'])
+            return
+        if second.get('pos') != o2['apply'].get('pos'):
+            rep.fail('correspondence-broken', scn,
+                     f"second application: impl={second} model={o2['apply']}",
+                     impl=it['twice'], model=o2['apply'])
+            return
     if ex['model_apply'].get('pos') != unit['pos']:
         rep.fail('correspondence-broken', scn,
                  f"apply_to_file: impl={unit} model={ex['model_apply']}",
@@ -157,6 +183,9 @@ def run(tier, seed, replay_case=None):
         items += core.run_sharded(eval_cases, seed, total, {'tier': tier})
     drv = core.Driver()
     mobs = drv.run([it['seek_case'] for it in items])
+    idx2 = [i for i, it in enumerate(items) if 'seek_case2' in it]
+    for i, mo in zip(idx2, drv.run([items[i]['seek_case2'] for i in idx2])):
+        items[i]['mobs2'] = mo
     # second pass (suffix runs on the real code, task cases) in parallel chunks
     chunks = [(items[i::core.NCPU], mobs[i::core.NCPU]) for i in range(core.NCPU)]
     extras_by_chunk = []
